@@ -229,6 +229,7 @@ Proof.
   destruct (t_wf t) eqn:Ewf; cbn [negb] in H; [|discriminate].
   destruct (str_mem (t_alg t) proxy_valid_methods) eqn:Ealg; cbn [negb] in H; [|discriminate].
   destruct (t_sigdec t) eqn:Esd; cbn [negb] in H; [|discriminate].
+  destruct (str_mem (t_alg t) jwt_rsa_methods) eqn:Ersa; cbn [negb] in H; [|discriminate].
   destruct (keys (t_iss t)) as [k|] eqn:Ek; [|discriminate].
   destruct (sv (t_alg t) k (t_text t) (t_sig t)) eqn:Esv; cbn [negb] in H; [|discriminate].
   unfold proxy_tokenLeeway, proxy_maxTokenAge in H.
@@ -259,7 +260,9 @@ Proof.
   intros now t k i Hwf Halg Hsd Hk Hsv Hi Hr He Hn. unfold check_token.
   rewrite Hwf; cbn [negb].
   apply str_mem_In in Halg. change (str_mem (t_alg t) proxy_valid_methods = true) in Halg.
-  rewrite Halg; cbn [negb]. rewrite Hsd; cbn [negb]. rewrite Hk, Hsv; cbn [negb]. rewrite Hi.
+  rewrite Halg; cbn [negb]. rewrite Hsd; cbn [negb].
+  change (str_mem (t_alg t) jwt_rsa_methods) with (str_mem (t_alg t) proxy_valid_methods).
+  rewrite Halg; cbn [negb]. rewrite Hk, Hsv; cbn [negb]. rewrite Hi.
   unfold proxy_tokenLeeway, proxy_maxTokenAge.
   destruct (t_nbf t) as [n|]; destruct (t_exp t) as [e|];
     try specialize (He _ eq_refl); try specialize (Hn _ eq_refl);
